@@ -162,3 +162,40 @@ Proof.
   cbn [In] in Hd.
   repeat (destruct Hd as [<-|Hd]; [rewrite Hm; now rewrite ?orb_true_r|]). contradiction.
 Qed.
+
+(** a non-ASCII host that is not an IP literal: IDNA-encoded (IDNA 2008/UTS46 first, the
+    IDNA 2003 codec lower-cased as fall-back), then screened like any registered name; a
+    host neither encoder accepts is a ValueError *)
+Theorem encode_host_idna (O : oracles) h v :
+  isascii h = false -> (forall raw, o_ip_parse O raw = None) ->
+  encode_host O h v =
+    match o_idna2008_enc O h with
+    | Some r => validate_regname v r
+    | None => match o_idna2003_enc O h with
+              | Some r => validate_regname v (lower_ascii r)
+              | None => Err ValueError
+              end
+    end.
+Proof.
+  intros Ha Hip. unfold encode_host. rewrite Ha.
+  assert (F : (do h0 <- idna_encode O h; validate_regname v h0) =
+              match o_idna2008_enc O h with
+              | Some r => validate_regname v r
+              | None => match o_idna2003_enc O h with
+                        | Some r => validate_regname v (lower_ascii r)
+                        | None => Err ValueError end end).
+  { unfold idna_encode. destruct (o_idna2008_enc O h); [reflexivity|]. destruct (o_idna2003_enc O h); reflexivity. }
+  destruct (last_opt h); [|exact F]. destruct (py_isdigit n || mem 58 h); [|exact F].
+  destruct (partition 37 h) as [[raw sep] zone]. now rewrite Hip.
+Qed.
+
+(** with the fall-back the stored name is lower-case whenever the library's answer is ASCII *)
+Corollary encode_host_idna2003_lower (O : oracles) h v r r' :
+  isascii h = false -> (forall raw, o_ip_parse O raw = None) ->
+  o_idna2008_enc O h = None -> o_idna2003_enc O h = Some r ->
+  encode_host O h v = Ok r' -> r' = lower_ascii r /\ no_upper r' = true.
+Proof.
+  intros Ha Hip H8 H3 H. rewrite (encode_host_idna O h v Ha Hip), H8, H3 in H.
+  unfold validate_regname in H. destruct (v && _); [discriminate|]. inversion H; subst.
+  split; [reflexivity|apply lower_ascii_no_upper].
+Qed.
